@@ -454,7 +454,7 @@ class Contract:
                  loops=None, prop=None, pure=False, invariant=(), locals=None, defaults=None,
                  is_property=False, name=None, assumed=False, names=None, reads=(), ghost_out=None,
                  shared=(), rely=(), suspends=False, next_raises=(), crash_invariant=(), escape_props=None,
-                 replay=None, observe=(), note=None, decreases=None, skip_args=(), fault_policy=None, frame_on_raise=False, merge_ifs=False, shards=1, ghost_update=(), eval_log_args=False, variants=None, split_and=True):
+                 replay=None, observe=(), note=None, decreases=None, skip_args=(), fault_policy=None, frame_on_raise=False, merge_ifs=False, shards=1, ghost_update=(), eval_log_args=False, variants=None, split_and=True, ghost_at=None):
         self.file = file; self.func = func; self.params = params; self.ret = ret
         self.name = name or func
         props = prop if prop is not None else ''
@@ -470,7 +470,7 @@ class Contract:
         self.next_raises = list(next_raises); self.crash_invariant = clauses(crash_invariant)
         self.escape_props = set(escape_props) if escape_props is not None else None
         self.replay = replay; self.observe = list(observe); self.note = note; self.decreases = decreases
-        self.skip_args = set(skip_args); self.fault_policy = fault_policy; self.frame_on_raise = frame_on_raise; self.merge_ifs = merge_ifs; self.shards = shards; self.ghost_update = list(ghost_update); self.eval_log_args = eval_log_args; self.variants = variants; self.split_and = split_and
+        self.skip_args = set(skip_args); self.fault_policy = fault_policy; self.frame_on_raise = frame_on_raise; self.merge_ifs = merge_ifs; self.shards = shards; self.ghost_update = list(ghost_update); self.eval_log_args = eval_log_args; self.variants = variants; self.split_and = split_and; self.ghost_at = ghost_at
         if self.name in CONTRACTS: raise AssertionError('duplicate contract %s' % self.name)
         CONTRACTS[self.name] = self
 
